@@ -105,7 +105,10 @@ r(r"^encode::Encoder::new\|unwrap:Result\|", "placeholders are all Placeholder p
 r(r"^encode::EncoderSeekPoint::placeholders::\{closure\}\|assert\|", "sample_offset ranges below total_samples")
 r(r"^encode::EncoderSeekPoint::placeholders\|nonzero-arg\|", "block_size >= 16 (Options::block_size, private field)")
 r(r"^encode::EncoderSeekPoint::range\|assert\|", "offset < 2^36 + 65535")
-r(r"^encode::FlacStreamWriter::write\|", "frame was validated just above: 1..=65535 PCM frames, 1..=8 channels; caches resized to the channel count before indexing")
+r(r"^encode::FlacStreamWriter::write\|assert\|Div0:usize", "the divisor is the channel count, shown to be 1..=8 by the contains() test directly above (the other arm returns ExcessiveChannels)")
+r(r"^encode::FlacStreamWriter::write\|index\|::index_mut", "caches.channels is resized to the channel count (>= 1) on the line above the [0] index")
+r(r"^encode::FlacStreamWriter::write\|unwrap:Result\|Result::expect", "block size of a frame whose PCM-frame count already passed BlockSize::try_from (1..=65535); channel count already shown to be 1..=8")
+r(r"^encode::FlacStreamWriter::write\|unwrap:Result\|Result::unwrap", "get_disjoint_mut([0, 1]) right after resize_with(2, ..)")
 r(r"^encode::LpcParameters::best\|panic\|", "unreachable: an empty channel returns InsufficientLpcSamples first (len <= max order)")
 r(r"^encode::LpcParameters::best\|unwrap:Result\|", "channel length <= block size <= 65535")
 r(r"^encode::LpcParameters::quantize", "precision is one of the constants 7..=13; shift is clamped to -16..=15")
